@@ -54,6 +54,7 @@ def main():
     def run_demo():
         if demo == "demo.rs":
             shutil.copy(os.path.join(dst, "demo.rs"), f"{wt}/examples/seed_demo.rs")
+            sh("cargo build --offline --bin comrak", cwd=wt, env=env)    # demonstrations of CLI changes run target/debug/comrak
             rc, out = sh("cargo run --offline --example seed_demo", cwd=wt, env=env)
             os.remove(f"{wt}/examples/seed_demo.rs")
             return rc, out[-1500:]
